@@ -311,6 +311,49 @@ pub fn cond<'a, O, F: Fn(&'a [u8]) -> IResult<&'a [u8], O>>(b: bool, f: F) -> (g
         forall|i: &'a [u8], r: IResult<&'a [u8], Option<O>>| #[trigger] g.ensures((i,), r) ==> r == cond_map(b, fun_of(f)(i), i),
 { |i: &'a [u8]| -> IResult<&'a [u8], Option<O>> { unimplemented!() } }
 
+// nom::multi::length_count(f, g): run f for the count, then g exactly that many times, collecting; the first error of
+// either is returned (Error::append(_, Count, e) is e for nom::error::Error).   [multi/mod.rs]
+// nom::branch::alt((a, b)): a's result unless it is Err(Error), in which case b's result (Error::or keeps b's error,
+// Error::append(_, Alt, e) is e).                                                 [branch/mod.rs]
+// ASSUMED here; OBLIGATIONS of Kani harnesses shim_length_count / shim_alt (real nom, cheap element parser, bounded input).
+pub open spec fn count_from<'a, O>(pg: spec_fn(&'a [u8]) -> IResult<&'a [u8], O>, i: &'a [u8], k: int, acc: Seq<O>, r: IResult<&'a [u8], Vec<O>>) -> bool
+    decreases k
+{
+    if k <= 0 { match r { Ok((rem, v)) => rem@ == i@ && v@ == acc, Err(_) => false } }
+    else { match pg(i) {
+        Ok((i1, o)) => count_from(pg, i1, k - 1, acc.push(o), r),
+        Err(e) => r == Err::<(&[u8], Vec<O>), Err<Error<&[u8]>>>(e),
+    } }
+}
+pub open spec fn length_count_post<'a, N: ToUsizeSpec, O>(pf: spec_fn(&'a [u8]) -> IResult<&'a [u8], N>, pg: spec_fn(&'a [u8]) -> IResult<&'a [u8], O>,
+                                                         i: &'a [u8], r: IResult<&'a [u8], Vec<O>>) -> bool {
+    match pf(i) {
+        Ok((i1, n)) => count_from(pg, i1, n.as_int(), Seq::<O>::empty(), r),
+        Err(e) => r == Err::<(&[u8], Vec<O>), Err<Error<&[u8]>>>(e),
+    }
+}
+#[verifier::external_body]
+pub fn length_count<'a, N: ToUsizeSpec, O, F: Fn(&'a [u8]) -> IResult<&'a [u8], N>, G: Fn(&'a [u8]) -> IResult<&'a [u8], O>>(f: F, g: G) -> (h: impl Fn(&'a [u8]) -> IResult<&'a [u8], Vec<O>>)
+    requires is_fun(f), is_fun(g),
+    ensures
+        forall|i: &'a [u8]| #[trigger] h.requires((i,)),
+        forall|i: &'a [u8], r: IResult<&'a [u8], Vec<O>>| #[trigger] h.ensures((i,), r) ==> length_count_post(fun_of(f), fun_of(g), i, r),
+{ |i: &'a [u8]| -> IResult<&'a [u8], Vec<O>> { unimplemented!() } }
+
+pub open spec fn alt2_fn<'a, O>(pa: spec_fn(&'a [u8]) -> IResult<&'a [u8], O>, pb: spec_fn(&'a [u8]) -> IResult<&'a [u8], O>, i: &'a [u8]) -> IResult<&'a [u8], O> {
+    match pa(i) {
+        Err(Err::Error(_)) => pb(i),
+        r => r,
+    }
+}
+#[verifier::external_body]
+pub fn alt<'a, O, A: Fn(&'a [u8]) -> IResult<&'a [u8], O>, B: Fn(&'a [u8]) -> IResult<&'a [u8], O>>(l: (A, B)) -> (h: impl Fn(&'a [u8]) -> IResult<&'a [u8], O>)
+    requires is_fun(l.0), is_fun(l.1),
+    ensures
+        forall|i: &'a [u8]| #[trigger] h.requires((i,)),
+        forall|i: &'a [u8], r: IResult<&'a [u8], O>| #[trigger] h.ensures((i,), r) ==> r == alt2_fn(fun_of(l.0), fun_of(l.1), i),
+{ |i: &'a [u8]| -> IResult<&'a [u8], O> { unimplemented!() } }
+
 // nom::combinator::verify(first, second): run first; keep its Ok iff second(&output), otherwise
 // Error(make_error(input, Verify)) at the ORIGINAL input; errors of first propagated unchanged.   [combinator/mod.rs]
 // ASSUMED here; OBLIGATION of Kani harness shim_verify (real nom, bounded input).
